@@ -538,3 +538,51 @@ def check_cache_coherence(run, repo, cls, rule='R13.cache'):
                 run.check(same_block, rule, m, st, 'self.%s and self.%s are built from the same source in __init__ (one summarises the other); this '
                           'block changes self.%s without changing self.%s, which goes stale' % (x, y, x, y))
     return n
+
+
+def check_map_pairs(run, cls, rule='R11.pairmaps'):
+    """A circuit keeps two compiled maps, and forward / backward each fall back to the layer walk only when their own map is
+    absent.  An operation that assigns one of the two fields of an object without assigning the other leaves the pair
+    inconsistent (one direction recomputed from the layers, the other still the compiled map of the earlier circuit).  The
+    stores of helper methods called on self count for their callers; a method that is only a helper is judged there."""
+    direct, calls = {}, {}
+    for name, m in cls.methods.items():
+        stores = {}
+        for st, ctx in walk(m.node):
+            tg = []
+            if isinstance(st, ast.Assign):
+                stack = list(st.targets)
+                while stack:
+                    t = stack.pop()
+                    if isinstance(t, (ast.Tuple, ast.List)):
+                        stack.extend(t.elts)
+                    else:
+                        tg.append(t)
+            for t in tg:
+                if isinstance(t, ast.Attribute) and t.attr in ('forward_map', 'backward_map'):
+                    stores.setdefault(norm(t.value), {}).setdefault(t.attr, st)
+        direct[name] = stores
+        calls[name] = {c.func.attr for c in ast.walk(m.node) if isinstance(c, ast.Call) and isinstance(c.func, ast.Attribute)
+                       and norm(c.func.value) == 'self' and c.func.attr in cls.methods and c.func.attr != name}
+    called = set().union(*calls.values()) if calls else set()
+
+    def closure(name, seen):
+        out = {k: dict(v) for k, v in direct[name].items()}
+        for h in calls[name]:
+            if h in seen:
+                continue
+            for fld, st in closure(h, seen | {h}).get('self', {}).items():
+                out.setdefault('self', {}).setdefault(fld, st)
+        return out
+    n = 0
+    for name, m in sorted(cls.methods.items()):
+        full = closure(name, {name})
+        for obj, fl in sorted(full.items()):
+            missing = [a for a in ('forward_map', 'backward_map') if a not in fl]
+            if missing and obj == 'self' and name in called:
+                continue            # a helper: its callers are judged on what they assign altogether
+            n += 1
+            have = [a for a in ('forward_map', 'backward_map') if a in fl]
+            run.check(not missing, rule, m, fl[have[0]], '%s assigns %s.%s and leaves %s.%s as it was: forward and backward of the circuit then use maps of '
+                      'two different circuits' % (m.qual, obj, have[0], obj, missing[0] if missing else ''))
+    return n
